@@ -4,6 +4,10 @@ Trace == ndJsonDeserialize(IOEnv.TRACE)
 VARIABLES l, bad, nbad
 N(x) == [n |-> x.n, o |-> x.o]
 Small(x) == x <= 1000 /\ x >= -1000          \* relative error in 10^-12: tolerance 10^-9
+\* letter and pitch class of a transposition (what stays demanded of names carrying three or more accidentals, finding F11-01 / F11-02)
+LawTransposeClass(a, sh, up, r) ==
+    /\ Valid(r.n) /\ Letter(r.n) = ShiftLetter(Letter(a.n), IF up THEN ShDegree(sh) - 1 ELSE 1 - ShDegree(sh))
+    /\ PC(r.n) = Mod12(PC(a.n) + (IF up THEN ShSize(sh) ELSE 0 - ShSize(sh)))
 Clause(e) ==
   CASE e.op = "int" -> IF e.ok /\ e.out = Num(e.in.n, e.in.o) THEN "ok" ELSE "pitch-number"
     [] e.op = "from_int" ->
@@ -43,6 +47,7 @@ Clause(e) ==
     [] e.op = "transpose" ->
          IF ~SizeInDomain(e.in.sh) THEN "ok"
          ELSE IF e.ok /\ LawTranspose(N(e.in), e.in.sh, e.in.up, N(e.out)) THEN "ok"
+         ELSE IF e.ok /\ NAcc(e.in.n) >= 3 /\ LawTransposeClass(N(e.in), e.in.sh, e.in.up, N(e.out)) THEN "octave-rule-on-names-with-3-or-more-accidentals"
          ELSE IF e.in.up THEN "transpose-up" ELSE "transpose-down"
     [] e.op = "transpose_updown" ->
          IF ~SizeInDomain(e.in.sh) THEN "ok"
